@@ -8,7 +8,6 @@ EXPLANATION = ('Built with all three I/O features. Per save function (value-flow
                'length s2; values go through Into::<f64>::into under the bound T: Into<f64> (lossless by type) or Display (CSV); every fallible call is propagated with `?` '
                '(none unwrapped, expected or dropped); flush / finish / close on the writer is the last writer operation before Ok(()). Byte-level round trips through the '
                'external readers are not decided.')
-FLOORS = {'obligations': 44}   # counted on the reference tree; fewer instantiated obligations is reported, never passed silently
 TECHNIQUE = 'value-flow sequence terms (labels vs values), affine offset forms, result-discipline and ordering rules over the evaluated bodies'
 FALLIBLE = ('std::fs::File::create', 'csv::Writer::write_record', 'csv::Writer::flush', 'arrow::array::RecordBatch::try_new', 'arrow::arrow_ipc::writer::FileWriter::try_new',
             'arrow::arrow_ipc::writer::FileWriter::write', 'arrow::arrow_ipc::writer::FileWriter::finish', 'parquet::arrow::ArrowWriter::try_new', 'parquet::arrow::ArrowWriter::write',
